@@ -486,7 +486,7 @@ var c09pNearMisses = []string{
 
 func c09Pipe(c *Ctx) {
 	r := c.Res
-	n := 1200
+	n := 800
 	if c.Thorough {
 		n *= 5
 	}
